@@ -139,3 +139,11 @@ Theorem C05_check_identifier_name_crash_without_name : forall toks udt fpos vars
   check_identifier_name toks ident_func_rule true udt None fpos vars = Crash IndexError.
 Proof. exact ident_crash_without_name. Qed.
 Print Assumptions C05_check_identifier_name_crash_without_name.
+
+(* ---- CheckPreprocessorIndent (Gen/PreprocChecks.v): it ends normally or raises AttributeError (a missing token where `.line_column`,
+   `.value.upper` or the highlighted token is read), nothing else; no loop of it can run on *)
+From NV Require Import Model.PreprocBase Gen.PreprocChecks Proofs.PreprocProofs.
+Theorem C05_check_preproc_indent_ok_or_attribute_error : forall toks glob pindent,
+  (exists E, check_preproc_indent toks glob pindent = Ok E) \/ check_preproc_indent toks glob pindent = Crash AttributeError.
+Proof. exact ppi_ok_or_attribute_error. Qed.
+Print Assumptions C05_check_preproc_indent_ok_or_attribute_error.
